@@ -48,6 +48,8 @@ class _Shrinker:
         self.batch = max(1, batch)
         self.used = 0
         self.log = log
+        self.by_switches = True
+        self.round_mode = True
 
     # ------------------------------------------------------------------ evaluation
     def same(self, res: dict) -> bool:
@@ -70,7 +72,10 @@ class _Shrinker:
             for (i, what, cand), res in zip(group, results):
                 if self.same(res):
                     if res.get('decisions') is not None:
+                        # keep both replay formats of the run that just failed: the flat list is the
+                        # exact replay, the switch list is what further candidates are tried with
                         cand['decisions'] = res['decisions']
+                        cand['switches'] = res.get('switch_log')
                     self.best, self.best_res = cand, res
                     if self.log:
                         self.log(f'shrink: {what} -> {program.count_statements(cand)} statements ({self.used} executions)')
@@ -81,6 +86,10 @@ class _Shrinker:
     def variant(self, mutate: Callable[[dict], None]) -> dict:
         cand = copy.deepcopy(self.best)
         mutate(cand)
+        if self.by_switches and cand.get('world') == 'thread' and cand.get('switches') is not None and cand.get('decisions'):
+            # a changed program shifts positions in the flat decision list; the switch list (positions
+            # counted per actor) survives changes to other actors
+            cand['decisions'] = None
         return cand
 
     # ------------------------------------------------------------------ phases
@@ -206,10 +215,23 @@ class _Shrinker:
                 progress = changed = True
         return progress
 
+    def phase_switches(self) -> bool:
+        """Fewest hand-overs: ddmin over the per-actor switch list."""
+        if self.best.get('world') != 'thread' or not self.best.get('switches'):
+            return False
+        return self.ddmin_list('switches', lambda s: s['switches'])
+
     def phase_decisions(self) -> bool:
         dec = self.best.get('decisions')
         if not dec:
             return False
+        self.by_switches = False
+        try:
+            return self._phase_decisions()
+        finally:
+            self.by_switches = self.round_mode
+
+    def _phase_decisions(self) -> bool:
         if self.first_success([('no recorded decisions', self.variant(lambda s: s.__setitem__('decisions', [])))]) is not None:
             return True
         return self.ddmin_list('decisions', lambda s: s['decisions'])
@@ -217,15 +239,20 @@ class _Shrinker:
     def run(self) -> None:
         progress = True
         rounds = 0
-        while progress and self.used < self.budget and rounds < 4:
+        self.round_mode = True
+        while (progress or rounds < 2) and self.used < self.budget and rounds < 6:
             rounds += 1
             progress = False
+            # odd rounds replay candidates from the per-actor switch list, even rounds from the flat
+            # decision list: schedule-dependent failures survive different edits under each
+            self.by_switches = self.round_mode = rounds % 2 == 1
             progress |= self.phase_global()
             for ai in range(len(self.best['programs'])):
                 if self.best['programs'][ai]:
                     progress |= self.min_body((ai,))
             progress |= self.phase_unwrap()
             progress |= self.phase_leaves()
+            progress |= self.phase_switches()
             progress |= self.phase_decisions()
         trimmed = trim(self.best)
         if trimmed != self.best and self.used < self.budget + 1:
